@@ -59,6 +59,9 @@ CHECKS = {
  "C16": dict(cat="model_checking", ref="DESIGN.md 4 C16", tech="TLA+ blend/packing definitions (EvalBlend.tla) evaluated exhaustively by TLC on a boundary grid; recorded evaluations of TLC-generated extreme-material positions and their TLC-validated colour mirrors judged by Trace_Eval.tla",
    text="EvalBlend.tla states the blend as coded and the between-ness the property demands; TLC evaluates it on a 25x25 grid x phase 0..100 plus carry-freedom of the packed two-phase number. The same triples go through the real for_phase. Positions with material far outside normal play (TLC-generated: up to nine queens, ten rooks or ten minors a side behind pawn walls, phase up to 88), material signatures, near-mate endings, walk and bench positions are evaluated in both builds; TLC checks no panic, eval = eval of the mirror (mirror validated against Chess!Mirror), |eval| < 31900 and eval between the pure middlegame and pure endgame assessments.",
    note="Evaluation terms are not re-derived in TLA+; C16 is decided through metamorphic clauses. Symbolic discharge of the blend clause with Apalache is a growth item."),
+ "C10": dict(cat="model_checking", ref="DESIGN.md 4 C10", tech="TLA+ state machine of the staged generator (MovePicker.tla) model-checked with TLC over all bounded configurations, sharded, with per-branch action coverage; trace validation of recorded picker runs with the rule book (Chess.tla) as judge; MovePicker.tla composed with See.tla as CodeView predictor; hook H5 writes killer pairs",
+   text="MovePicker.tla transcribes MovePicker::next / next_best_move block by block (selection step, hash-move skip, swap-to-front of killers and counter move, bad-capture parking, captures-only variant). TLC checks exhaustively that for every configuration within the bounds (quick <=2 captures x <=3 quiets; thorough <=3x3 and 4x<=2: 6.95 M configurations, 104 M states) the stream at Done is a permutation of the listed moves (loud: duplicate-free and contains all captures), over all weak orderings of capture scores and history values, every threshold position, hash move listed or none, killers and counter move independently listed, none or foreign; every branch action taken; termination by a progress measure. Every stream of the real picker on real positions x adversarial table contents (killers/counter among legal quiets, captures, queen promotions, moves legal only in sibling positions, arbitrary Move values, equal to each other; history ties and saturation; plies 0..254) is judged by TLC against Chess!Legal(pos) and compared with the model's predicted stream.",
+   note="Hash move restricted to legal moves or none (the property's quantifier). History values only those reachable through add_bonus_for. A stream that differs from the model's prediction is drift, not a violation.", engine="tla-game"),
 }
 
 def main():
